@@ -96,6 +96,16 @@ def b_len(I, args, kw, node):
 
 
 def _minmax(I, args, kw, node, is_min):
+    if len(args) == 1 and isinstance(args[0], SymList):
+        v = args[0]
+        if not I.decide(v.n > 0, "min/max-non-empty"):
+            I.raise_builtin("ValueError", node)
+        m = z3.Const(I.fresh_name("ext"), v.arr.sort().range())
+        k, j = z3.Int(I.fresh_name("k")), z3.Int(I.fresh_name("j"))
+        el = z3.Select(v.arr, k)
+        I.assume(z3.ForAll([k], z3.Implies(z3.And(0 <= k, k < v.n), (m <= el) if is_min else (m >= el))))
+        I.assume(z3.Exists([j], z3.And(0 <= j, j < v.n, z3.Select(v.arr, j) == m)))
+        return m
     if len(args) == 1:
         items = I.iterate(args[0], node)
     else:
@@ -340,6 +350,13 @@ def b_list(I, args, kw, node):
     v = args[0]
     if isinstance(v, SymList):
         return SymList(v.arr, v.n, "list")
+    if isinstance(v, SymRange) and concrete_int(v.step) == 1:
+        lo, hi = to_z3(v.lo), to_z3(v.hi)
+        A = z3.Array(I.fresh_name("rng"), z3.IntSort(), z3.IntSort())
+        k = z3.Int(I.fresh_name("k"))
+        n = z3.If(hi > lo, hi - lo, 0)
+        I.assume(z3.ForAll([k], z3.Implies(z3.And(0 <= k, k < n), z3.Select(A, k) == lo + k)))
+        return SymList(A, n, "list")
     return PyList(I.iterate(v, node))
 
 
